@@ -225,6 +225,32 @@ def safeCheckN (nvars : Nat) (c : Array Instr) : Bool := checkShapes (c.map shap
 /-- the checker for a program compiled without variables -/
 def safeCheck (c : Array Instr) : Bool := safeCheckN 0 c
 
+/-! ## what the theorems assume of the natives `_index` and `getpath` (null keys) -/
+
+/-- the values along the `next` chain of a persistent stack (top first) -/
+def chainVals (data : Array (Block V)) : Nat → Int → List V
+  | 0, _ => []
+  | n + 1, i =>
+    if 0 ≤ i then
+      match data[i.toNat]? with
+      | some b => b.value :: chainVals data n b.next
+      | none => []
+    else []
+
+/-- the data stack as a list, top first -/
+def stackList (s : Stack V) : List V := chainVals s.data s.data.size s.index
+
+/-- the answer `x` of the native call `ins` about to run on data stack `stk` respects null keys:
+    `_index(x; k)` does not answer a VALUE when `k` is null, `getpath(p)` answers a value only for an
+    array `p` without null — both natives raise an error otherwise (`expected … but got: null`).  In
+    path-tracking mode the loop pushes `pathValue{k, …}` after such a call, and a nil path is the
+    marker of `pathbegin`.  The callee value `x` is on top, `args[0]`, `args[1]` below it. -/
+def keyOK (ins : Instr) (stk : List V) (x : ExtRec) : Prop :=
+  match ins, x.call with
+  | .callNative .index _, some (.val _) => ∃ x0 a0 a1 r, stk = x0 :: a0 :: a1 :: r ∧ a1 ≠ .jv .null
+  | .callNative .getpath _, some (.val _) => ∃ x0 ps r, stk = x0 :: .jv (.arr ps) :: r ∧ JV.null ∉ ps
+  | _, _ => True
+
 /-! ## the same check on the dumped instruction syntax -/
 
 def kindCode : NativeKind → Int
